@@ -16,10 +16,10 @@ Lemma value_reencode : forall c v rest, value_reader_no_len c = false -> wf_dval
 Proof. intros c v rest Hc Hwf. exists v. split; [now apply value_roundtrip_top|reflexivity]. Qed.
 
 (* generated decoders (MetaObject, ObjectReference, ServiceInfo ...): instances of the typed decoder *)
-Lemma gen_dec_exact : forall t v rest, good_ty t = true -> has_ty v t = true -> dyn_depth v = 0%nat ->
+Lemma gen_dec_exact : forall t v rest, wf_ty t = true -> has_ty v t = true -> dyn_depth v = 0%nat ->
   gen_dec parse_opt t (spec_enc v ++ rest) = ROk (v, rest).
 Proof. intros t v rest Ht Hv Hd. unfold gen_dec. apply spec_dec_enc_top; auto. rewrite Hd. apply le_n. Qed.
-Lemma gen_dec_prefix : forall t v k, good_ty t = true -> has_ty v t = true -> dyn_depth v = 0%nat ->
+Lemma gen_dec_prefix : forall t v k, wf_ty t = true -> has_ty v t = true -> dyn_depth v = 0%nat ->
   (k < List.length (spec_enc v))%nat -> fails (gen_dec parse_opt t (firstn k (spec_enc v))).
 Proof. intros t v k Ht Hv Hd Hk. unfold gen_dec. apply spec_dec_prefix_top; auto. rewrite Hd. apply le_n. Qed.
 
@@ -36,3 +36,14 @@ Proof.
   change (bytes_of_string "{sm}") with (bytes_of_string (print (TMap (TS SStr) (TS SValue)))).
   apply wf_opq; try (vm_compute; congruence).
 Qed.
+
+(* non-vacuity of the theorems outside wfz: containers of zero-width elements, alone, nested,
+   as map entries and next to sized members, inside a dynamic value as well *)
+Definition zw_ty := TTuple [TList (TS SVoid); TS SI32; TList (TTuple []); TList (TList (TS SVoid));
+                            TMap (TS SVoid) (TStruct "E" []); TS SValue; TS SU8].
+Definition zw_val := VTup [VList [VTup []; VTup []; VTup []]; VNum 4 7; VList [VTup []; VTup []];
+                           VList [VList [VTup []]; VList []]; VMap [(VTup [], VTup [])];
+                           VDyn (TList (TTuple [TS SVoid])) (VList [VTup [VTup []]]); VNum 1 9].
+Lemma zw_val_ok : wf_ty zw_ty = true /\ wfz zw_ty = false /\ has_ty zw_val zw_ty = true /\
+  dyn_depth zw_val = 1%nat /\ (List.length (spec_enc zw_val) = 42)%nat.
+Proof. vm_compute. repeat split. Qed.
